@@ -77,14 +77,15 @@ class SimRefClock : public ace_time::testing::FakeClock {
 
   // per-call recording
   mutable int sentCalls = 0, readCalls = 0, readyQueries = 0, setCalls = 0;
+  mutable int seq = 0, sendSeq = 0, readSeq = 0;   // order of the (last) send and read inside one loop() call
   mutable acetime_t lastRead = 0;
   acetime_t lastSet = 0;
-  void beginCall() const { sentCalls = readCalls = readyQueries = 0; setCalls = 0; }
+  void beginCall() const { sentCalls = readCalls = readyQueries = 0; setCalls = 0; seq = sendSeq = readSeq = 0; }
 
   acetime_t trueNow() const { return (acetime_t)(refBase + *nowMs / 1000); }
 
   void sendRequest() const override {
-    sentCalls++;
+    sentCalls++; sendSeq = ++seq;
     // the previous request, if never read and answerable, becomes a stale datagram
     if (outstanding && readyAt < kNever && cur.kind != RefPlan::INVALID) {
       haveStale = true; staleReadyAt = readyAt; staleVal = curVal;
@@ -132,7 +133,7 @@ class SimRefClock : public ace_time::testing::FakeClock {
     }
   }
   acetime_t readResponse() const override {
-    readCalls++;
+    readCalls++; readSeq = ++seq;
     acetime_t v = (outstanding && *nowMs >= readyAt) ? currentAnswer()
         : (outstanding ? kInvalid : lastRead);  // reading when not ready: an error value
     if (outstanding && *nowMs >= readyAt) outstanding = false;
